@@ -46,9 +46,9 @@ class ProgError(Exception):
         return hash(self.args)
 
     def __len__(self):
-        # a "collected errors" kind of exception: an instance whose tag starts with 'falsy' is falsy (an exception object must be
+        # a "collected errors" kind of exception: an instance whose tag contains 'falsy' is falsy (an exception object must be
         # recognised by what it is, not by its truth value)
-        return 0 if str(self.tag).startswith('falsy') else 1
+        return 0 if 'falsy' in str(self.tag) else 1
 
 
 class Recorder:
